@@ -224,7 +224,11 @@ C02Viol(ev) ==
                         \/ k2 < k /\ PKey(ev.p, ev.t, es[k2]) \in KeysOf(begun)} }
           \cup
           (LET d == IF ev.p \in DOMAIN dead /\ ~dead[ev.p].viaDep THEN dead[ev.p] ELSE [xs |-> {}, sure |-> TRUE]
+               \* a failure below a when_changed task is tracked under that task's own printed path;
+               \* whom it stops further up is not known to the monitor
+               untracked == UNION {dead[p].xs : p \in {p \in DOMAIN dead : p[1][1] = "w"}}
                ok == \/ d.xs = {} /\ ev.xc = ""
+                     \/ d.xs = {} /\ \E x \in untracked : ev.xc = ToString(x)
                      \/ \E x \in d.xs : ev.xc = ToString(x)
                      \/ d.xs # {} /\ ~d.sure /\ ev.xc = ""
            IN IF ~ok THEN {Viol("C14", "exit-code")} ELSE {}))
@@ -237,7 +241,20 @@ C03Viol(ev) ==
   ELSE {}
 
 \* C06: number of executions
+\* a reference to a deduplicated task whose execution (for these variable values) has not
+\* completed successfully when the referencing task goes on
+C06Missing(ev) ==
+  LET es == ExpCmds(ev.t) ks == EntryPos(ev) IN
+  { Viol("C06", "referenced-execution-not-complete") :
+      d \in { d \in Range(ExpDeps(ev.t)) : IsDedup(d.t) /\ ~RefDone(ev.p, ev.v, d) } }
+  \cup
+  (IF ks = {} THEN {}
+   ELSE LET k == CHOOSE k \in ks : TRUE IN
+        { Viol("C06", "referenced-execution-not-complete") :
+            k1 \in {k1 \in 1..(k-1) : es[k1].k = "call" /\ es[k].k = "sh" /\ IsDedup(es[k1].cs.t) /\ ~T(ev.t).ign /\ ~RefDone(ev.p, ev.v, es[k1].cs)} })
+
 C06Viol(ev) ==
+  C06Missing(ev) \cup
   CASE T(ev.t).run = "once" ->
          IF \E b \in begun : b.t = ev.t /\ (b.p # ev.p \/ (b.i = ev.i /\ b.item = ev.item))
          THEN {Viol("C06", "once-twice")} ELSE {}
@@ -325,6 +342,10 @@ RetViol(r) ==
   \cup
   (IF DOMAIN dead = {} /\ ~AnyGuard /\ r.code # 0 /\ r.code # 204 THEN {Viol("C03", "spurious-error")} ELSE {})
   \cup
+  \* every failure was swallowed by an ignore_error on the way up: the final status is unaffected
+  (IF DOMAIN dead # {} /\ RootDead = {} /\ ~AnyGuard /\ ~HasDedup /\ r.code # 0 /\ r.code # 204
+   THEN {Viol("C03", "ignored-failure-affects-status")} ELSE {})
+  \cup
   (IF GuardWitness # 0 /\ begun = {} /\ r.code # GuardWitness THEN {Viol("C13", "guard-status")} ELSE {})
   \cup
   { Viol("C14", "defer-not-run") :
@@ -343,11 +364,36 @@ FanoutK ==
                 /\ Len(d.cmds) > 0 /\ d.cmds[1].k = "sh" /\ d.cmds[1].for = <<>>
        THEN Len(ds) ELSE 0
 
+\* C07c, general witness: before anything is released, the commands that can start are the first
+\* entries of the "leaves" (tasks without deps, reached through deps and first-entry calls); a
+\* deduplicated task counts once.  Defined only for programs in which every reachable task is
+\* unguarded and starts with a shell command or a task call (else 0 = no statement).
+RECURSIVE Leaves(_, _, _, _)
+Leaves(t, v, key, fuel) ==
+  IF fuel = 0 THEN {<<"?">>}
+  ELSE LET tk == T(t)
+           k2 == IF tk.run = "once" THEN <<"o", t>> ELSE IF tk.run = "when_changed" THEN <<"h", t, v>> ELSE key
+           es == ExpCmds(t)
+       IN IF tk.guard # "none" \/ es = <<>> \/ es[1].k \notin {"sh", "call"} THEN {<<"?">>}
+          ELSE IF ExpDeps(t) # <<>>
+          THEN UNION { Leaves(d.t, ResolveV(d.v, v), Append(k2, d.seg), fuel - 1) : d \in Range(ExpDeps(t)) }
+          ELSE IF es[1].k = "sh" THEN {k2}
+          ELSE Leaves(es[1].cs.t, ResolveV(es[1].cs.v, v), Append(k2, es[1].cs.seg), fuel - 1)
+
+InitialWidth ==
+  IF Len(Prog.roots) # 1 THEN 0
+  ELSE LET L == Leaves(Prog.roots[1].t, Prog.roots[1].v, <<"r">>, Fuel) IN
+       IF <<"?">> \in L THEN 0 ELSE Cardinality(L)
+
 QViol(set) ==
   IF FanoutK > 0 /\ ended = {}
   THEN LET want == IF Lim = 0 \/ Lim > FanoutK THEN FanoutK ELSE Lim IN
        IF Cardinality(set) < want THEN {Viol("C07", "lost-concurrency")}
        ELSE IF Cardinality(set) > want THEN {Viol("C07", "limit-exceeded")} ELSE {}
+  ELSE IF InitialWidth > 0 /\ ended = {}
+  THEN LET want == IF Lim = 0 \/ Lim > InitialWidth THEN InitialWidth ELSE Lim IN
+       IF Cardinality(set) < want THEN {Viol("C07", "lost-concurrency")}
+       ELSE IF Cardinality(set) > want THEN {Viol("C07", "more-running-than-startable")} ELSE {}
   ELSE {}
 
 \* ---------------------------------------------------------------- monitor transitions
